@@ -45,8 +45,10 @@ def gen_request_spec(rng):
     if rng.random() < 0.2:
         spec = grammar.gen_extended_ops_api(rng)
         spec["options"]["autogen-snippets"] = rng.random() < 0.5
+        spec["comments"] = True
         return spec
     spec = grammar.gen_api(rng, PROFILE)
+    spec["comments"] = True          # documented protos: source_code_info reaches docstrings, so it is part of the bytes
     o = spec["options"]
     o["autogen-snippets"] = rng.random() < 0.7
     if rng.random() < 0.6:
@@ -427,10 +429,13 @@ def main(argv):
                         import copy
                         fb = os.path.join(root, f"r{i}fail")
                         os.makedirs(fb)
-                        bad = copy.deepcopy(spec)
-                        y = bad.setdefault("service_yaml", {"type": "google.api.Service", "config_version": 3, "name": "x.example.com"})
-                        y.setdefault("publishing", {})["method_settings"] = [{"selector": bad["package"] + ".NoSuchService.NoSuchMethod",
-                                                                              "auto_populated_fields": ["request_id"]}]
+                        if er.random() < 0.5:
+                            bad = grammar.broken_twin_in_build(spec)      # dies inside API.build, between its passes
+                        else:
+                            bad = copy.deepcopy(spec)                     # dies after API.build, in settings validation
+                            y = bad.setdefault("service_yaml", {"type": "google.api.Service", "config_version": 3, "name": "x.example.com"})
+                            y.setdefault("publishing", {})["method_settings"] = [{"selector": bad["package"] + ".NoSuchService.NoSuchMethod",
+                                                                                  "auto_populated_fields": ["request_id"]}]
                         try:
                             materialise(bad, fb)
                             twins[("fail", i)] = fb
